@@ -207,7 +207,6 @@ Proof.
   all: try apply tstep_refl; try exact TS1.
   all: try (eapply tstep_trans; [exact TS1|]; apply tstep_zset; okstep_tac Hnz).
   all: try (apply tstep_zset; right; split; [apply not_protected_tp; exact TPS | first [intros _; apply key_match_tp; reflexivity | intros _; apply key_match_free; exact Hnz]]).
-  Show.
 Qed.
 
 Lemma handle_tp_false r pgn src dst len buf r1 ev idx :
@@ -354,9 +353,17 @@ Proof. reflexivity. Qed.
 Lemma geb_run x y : (x >=? y) = (y <=? x).
 Proof. apply Z.geb_leb. Qed.
 
+Lemma ffk_match_key s pgn src dst : pgn <> 0 -> (s_free s = true -> s_pgn s = 0) -> ffk_match s pgn src dst false = false -> key_match s pgn src dst = false.
+Proof.
+  intros Hnz Hf H. unfold ffk_match, key_match in *. destruct (s_free s) eqn:F.
+  - rewrite (Hf eq_refl). replace (0 =? pgn) with false by (symmetry; apply Z.eqb_neq; auto). reflexivity.
+  - cbn [negb andb] in H. destruct (s_tp s); cbn [Bool.eqb negb] in *; [apply andb_false_r|exact H].
+Qed.
+
 Theorem rx_complete_first : rx_complete_first_stmt.
 Proof.
-  intros gf r f0 Hgf (Htp & Hfast & Hfirst & Hknown) Hslot. pose proof (fast_pgn_nz _ _ Hfast) as Hnz.
+  intros gf r f0 Hgf (Htp & Hfast & Hfirst & Hknown) Hfc Hslot. pose proof (fast_pgn_nz _ _ Hfast) as Hnz.
+  unfold free_clear in Hfc. rewrite Forall_forall in Hfc.
   unfold rx_iter. rewrite rx_frame_nontp by exact Htp. unfold rx_nontp.
   rewrite check_known_fields, Hfast. cbv zeta. rewrite Hknown, byte_fbyte, Hfirst. cbn [negb andb Z.eqb].
   destruct (find_free_slot r (fpgn f0) (fsrc f0) (fdst f0) false) as [slots1 i] eqn:FF. cbn [snd] in Hslot.
@@ -382,8 +389,10 @@ Proof.
     assert (Km : key_match s' (fpgn f0) (fsrc f0) (fdst f0) = true) by (unfold key_match; subst s'; cbn [s_pgn s_src s_dst s_tp]; rewrite !Z.eqb_refl; reflexivity).
     split.
     + rewrite (find_cont_unique (fpgn f0) (fsrc f0) (fdst f0) (zset slots1 i s') 0 (Z.to_nat i)); [lia | rewrite zset_length; lia | | ].
-      * intros k Hk. unfold zset. rewrite nth_set_nth_neq by lia. apply ff_match_key.
-        destruct Ch as [(-> & M & _)|(_ & -> & M & _)]; [apply M; exact Hk|]. unfold zset. rewrite nth_set_nth_neq by lia. apply M. lia.
+      * intros k Hk. unfold zset. rewrite nth_set_nth_neq by lia.
+        destruct Ch as [(-> & M & _)|(_ & -> & M & _)].
+        -- apply ffk_match_key; auto. apply Hfc. apply nth_In. lia.
+        -- unfold zset. rewrite nth_set_nth_neq by lia. apply ff_match_key. apply M. lia.
       * unfold zset. rewrite nth_set_nth_eq by lia. exact Km.
     + cbv zeta. unfold get_slot. rewrite Hsl, znth_zset_eq by lia. subst s'. cbn [s_free s_tp s_pgn s_src s_dst s_pri s_len s_last s_data s_time flat_map length].
       rewrite app_nil_r, Z.add_0_r, fpri_land. repeat split; auto.
@@ -509,11 +518,11 @@ Qed.
 
 Theorem rx_complete_poll : rx_complete_poll_stmt.
 Proof.
-  intros gf r f0 cs q k Hgf FF Hq Hint Hseq Hk Hc Hmin Hslot.
+  intros gf r f0 cs q k Hgf FF Hfc Hq Hint Hseq Hk Hc Hmin Hslot.
   destruct k as [|k]; [lia|]. rewrite rx_loop_iter, Hq. set (r0 := with_rxq r q) in *.
   assert (FF0 : fast_first r0 f0) by (eapply fast_first_same; [| |exact FF]; reflexivity).
   assert (Hs0 : snd (find_free_slot r0 (fpgn f0) (fsrc f0) (fdst f0) false) < nslots r0) by exact Hslot.
-  pose proof (rx_complete_first gf r0 f0 Hgf FF0 Hs0) as A.
+  pose proof (rx_complete_first gf r0 f0 Hgf FF0 Hfc Hs0) as A.
   destruct (rx_iter_frame gf r0 f0 Hgf) as (Fq & Fp & Fc & Fn).
   destruct (rx_iter gf r0 f0) as [r1 ev] eqn:RI. cbn [fst snd] in *.
   destruct (run_complete f0 []) eqn:C0.
